@@ -57,6 +57,9 @@ class LZWDecoder:
         elif code == 257:
             pass
         elif not self.prevbuf:
+            if code >= len(self.table):
+                # no clear-table code yet, or a code that is not in the table
+                raise CorruptDataError
             x = self.prevbuf = cast(bytes, self.table[code])  # assume not None
         else:
             if code < len(self.table):
